@@ -70,9 +70,11 @@ Transportation1dSorter::Solution Transportation1dSorter::convertSolutionBack(
 }
 
 std::vector<int> Transportation1dSorter::convertAssignmentBack(
-    const std::vector<int> &a) const {
-  std::vector<int> ret;
-  ret.resize(a.size());
+    const std::vector<int> &a, int nbSources) const {
+  // Sources with zero supply are not seen by the solver: they default to the
+  // first sink with non-zero demand
+  int defaultSink = snkOrder.empty() ? 0 : snkOrder.front();
+  std::vector<int> ret(nbSources, defaultSink);
   for (size_t i = 0; i < a.size(); ++i) {
     ret[srcOrder[i]] = snkOrder[a[i]];
   }
@@ -109,7 +111,7 @@ std::vector<int> Transportation1d::assign() {
   Transportation1dSolver solver = sorter.convert(*this);
   solver.run();
   std::vector<int> sol = solver.computeAssignment();
-  return sorter.convertAssignmentBack(sol);
+  return sorter.convertAssignmentBack(sol, nbSources());
 }
 
 void Transportation1d::balanceDemand() {
